@@ -149,7 +149,7 @@ PROPS = {
         trusted=NUMERIC_TRUST + ["strconv.FormatFloat(v,'g',-1,64) / encoding/json number parsing round-trip every float64 (parse ∘ fmt = id)",
                                  "encoding/json preserves JSON equality of metadata (Unmarshal ∘ Marshal, SetEscapeHTML(false), RawMessage)"],
         statement="round trip given parse ∘ fmt = id on stored components; %f survives b <= 16 only",
-        partial="the record-level round-trip theorem has parse∘fmt=id and quantizer idempotence (C12) as hypotheses; that the export text is valid JSON for every JSON metadata value and that the streaming importer reads it back is checked on the implementation only",
+        partial="the record-level round-trip theorem has parse∘fmt=id and quantizer idempotence (C12) as hypotheses; import_of_export_is_the_same_store lifts it to collections: the records ExportJSON walks, re-added to a new collection with the same options, represent the same abstract store (same ids, metadata bytes, codes); import_record ties the record ImportJSON decodes and the id format; that the export text is valid JSON for every JSON metadata value and that the streaming importer reads it back is checked on the implementation only",
     ),
     "C10": dict(
         modules=["Syzgy.Props.C10"], ties=["Lock"], race=True,
